@@ -129,6 +129,7 @@ type Enc struct {
 	retCount map[string]int
 	wfSeen   map[string]bool
 	refComp  map[string]bool
+	inferredUsed map[string]bool
 }
 
 type iterRec struct {
@@ -177,6 +178,7 @@ func (e *Enc) reset() {
 	e.retOrder = nil
 	e.retGuards = nil
 	e.retCount = map[string]int{}
+	e.inferredUsed = map[string]bool{}
 	e.wfSeen = nil
 }
 
